@@ -44,9 +44,13 @@ func c02Core(c *Check, P string, r *RouterRoles) {
 	if !c.Floor(P+".O2", "call through which Publisher.Publish is reached", len(r.PubCalls), 1) {
 		return
 	}
-	for _, cl := range r.ChainCalls {
-		ok := len(cl.Common().Args) == 1 && isMsg(cl.Common().Args[0])
-		c.Report(ok, P+".O7", "CHAIN-ARG", D, cl.Pos(), "chain call", "the handler chain is invoked on the consumed message")
+	if r.ChainHelper == nil {
+		for _, cl := range r.ChainCalls {
+			ok := len(cl.Common().Args) == 1 && isMsg(cl.Common().Args[0])
+			c.Report(ok, P+".O7", "CHAIN-ARG", D, cl.Pos(), "chain call", "the handler chain is invoked on the consumed message")
+		}
+	} else {
+		c02ChainHelper(c, P, r)
 	}
 	chainErr := ResultOfAny(r.ChainCalls, 1)
 	chainOK, _ := NilEdges(D, chainErr)
@@ -421,4 +425,64 @@ func c02HelperResult(c *Check, id string, r *RouterRoles, pubErrCalls []ssa.Call
 		}
 	}
 
+}
+
+// c02ChainHelper: the chain is invoked through a helper H(chain, msg); H must
+// hand back exactly the chain's results, and if it recovers panics it must
+// report them as a non-nil error (or re-panic) — otherwise a panicking handler
+// would look like a success to the dispatch function.
+func c02ChainHelper(c *Check, P string, r *RouterRoles) {
+	H := r.ChainHelper
+	c.Use(P+".O7", H, "chain-invocation helper")
+	for _, ic := range r.ChainInner {
+		ok := len(ic.Common().Args) == 1 && AllOrigins(ic.Common().Args[0], IsParam(r.HelperMsg))
+		c.Report(ok && !InLoop(ic) && len(r.ChainInner) == 1, P+".O7", "CHAIN-ARG", ic.Parent(), ic.Pos(), "chain call in helper", "the helper invokes the chain exactly once, on the consumed message")
+	}
+	errCell := ResultCell(H, 1)
+	for i, ret := range Returns(H) {
+		k := fmt.Sprintf("helper return#%d", i)
+		for _, v := range Origins(ret.Results[1]) {
+			ok := ResultOfAny(r.ChainInner, 1)(v) || (!IsNilConst(v) && errCell != nil)
+			if IsNilConst(v) {
+				okE, _ := NilEdges(H, ResultOfAny(r.ChainInner, 1))
+				ok = GuardedBy(H, ret, okE)
+			}
+			c.Report(ok, P+".O7", "CHAIN-HELPER-TRANSPARENT", H, ret.Pos(), k, "the helper returns the chain's error (nil only if the chain returned nil)")
+		}
+		for _, v := range Origins(ret.Results[0]) {
+			c.Report(ResultOfAny(r.ChainInner, 0)(v) || IsNilConst(v), P+".O7", "CHAIN-HELPER-OUTPUTS", H, ret.Pos(), k, "the helper returns the chain's outputs")
+		}
+	}
+	// recovered panics
+	for _, f := range WithAnon(H) {
+		recs := BuiltinCalls(f, "recover")
+		if len(recs) == 0 {
+			continue
+		}
+		isRec := func(v ssa.Value) bool { return v == CallValue(recs[0]) }
+		_, panicked := NilEdges(f, func(v ssa.Value) bool { return AllOrigins(v, isRec) })
+		ok := errCell != nil && len(panicked) > 0
+		if ok {
+			// on the panicked edge every path stores a provably non-nil error into the helper's error result, or panics again
+			var stores []ssa.Instruction
+			for _, st := range StoresToCellIn(f, errCell) {
+				if ProvablyNonNil(firstOrigin(st.Val), func(ssa.Value) bool { return false }) {
+					stores = append(stores, st)
+				}
+			}
+			for _, p := range Panics(f) {
+				stores = append(stores, p)
+			}
+			for _, e := range panicked {
+				re := ReachEdge(e, NewCut().AddInstrs(stores...))
+				for _, ret := range Returns(f) {
+					if re[ret] {
+						ok = false
+					}
+				}
+			}
+		}
+		c.Report(ok, P+".O7", "CHAIN-HELPER-PANIC-IS-ERROR", f, recs[0].Pos(), "recover in the chain helper",
+			"a panic recovered inside the chain helper is turned into a non-nil error result (or re-raised): it must not look like a successful handler")
+	}
 }
